@@ -854,6 +854,21 @@ impl<'a, R: 'a + Read> Read for CompressionLayerFailSafeReader<'a, R> {
     /// decompression will fail while reading not-compressed data such as
     /// `CompressionLayerReader` footer
     fn read(&mut self, buf: &mut [u8]) -> io::Result<usize> {
+        // A decompression pass may consume input without producing any output
+        // (end of a block, input needed). `Ok(0)` means "end of stream" for the
+        // caller: loop until some bytes are produced or the stream really ends
+        loop {
+            if let Some(count) = self.read_pass(buf)? {
+                return Ok(count);
+            }
+        }
+    }
+}
+
+impl<'a, R: 'a + Read> CompressionLayerFailSafeReader<'a, R> {
+    /// One decompression pass. Returns `Ok(None)` if the pass made progress
+    /// without producing output and must be followed by another one
+    fn read_pass(&mut self, buf: &mut [u8]) -> io::Result<Option<usize>> {
         // Use this mem::replace trick to be able to get back the compressor
         // inner and freely move from CompressionLayerReaderState to others
         let old_state =
@@ -872,7 +887,7 @@ impl<'a, R: 'a + Read> Read for CompressionLayerFailSafeReader<'a, R> {
                     uncompressed_read: 0,
                     inner,
                 };
-                self.read(buf)
+                self.read_pass(buf)
             }
             CompressionLayerFailSafeReaderState::InData {
                 mut cache,
@@ -900,27 +915,21 @@ impl<'a, R: 'a + Read> Read for CompressionLayerFailSafeReader<'a, R> {
                 }
 
                 // Try to fill the cache from the inner source
+                let mut inner_eof = false;
                 match inner.read(&mut cache[cache_filled_offset..]) {
                     Ok(read) => {
                         if read == 0 && read_offset == cache_filled_offset {
                             // No more data from inner and the cache has been fully read
-                            // -> return either an error or Ok(0)
-                            if uncompressed_read > 0 {
-                                // Inside a stream and no more data available
-                                return Err(io::Error::new(
-                                    io::ErrorKind::UnexpectedEof,
-                                    "No more data from the inner layer",
-                                ));
-                            }
-                            // No more data available but not in a stream
-                            return Ok(0);
+                            // -> the decompressor may still hold some output: drain it
+                            // before returning either an error or Ok(0)
+                            inner_eof = true;
                         }
                         cache_filled_offset += read;
                     }
                     error => {
                         if read_offset == cache_filled_offset {
                             // No more data in the cache
-                            return error;
+                            return error.map(Some);
                         }
                         // There is still data in the cache to read
                         // Will fail and return the error on the next .read()
@@ -942,6 +951,8 @@ impl<'a, R: 'a + Read> Read for CompressionLayerFailSafeReader<'a, R> {
                 let mut output_offset = 0;
                 // OUT: total number of byte written for the current stream (cumulative)
                 let mut written = 0;
+                // Whether a pass without output may be followed by another one
+                let mut more_passes = false;
 
                 let ret = match brotli::BrotliDecompressStream(
                     &mut available_in,
@@ -967,11 +978,13 @@ impl<'a, R: 'a + Read> Read for CompressionLayerFailSafeReader<'a, R> {
                             StandardAlloc::default(),
                         ));
                         uncompressed_read = 0;
+                        more_passes = true;
 
                         Ok(output_offset)
                     }
                     brotli::BrotliResult::NeedsMoreInput => {
                         // Bytes may have been read and produced
+                        more_passes = true;
                         read_offset += input_offset;
                         uncompressed_read += u32::try_from(output_offset).map_err(|_| {
                             io::Error::new(io::ErrorKind::InvalidData, "Integer conversion failed")
@@ -1003,7 +1016,23 @@ impl<'a, R: 'a + Read> Read for CompressionLayerFailSafeReader<'a, R> {
                     inner,
                 };
 
-                ret
+                match ret {
+                    Ok(0) if inner_eof => {
+                        if uncompressed_read > 0 {
+                            // Inside a stream and no more data available
+                            return Err(io::Error::new(
+                                io::ErrorKind::UnexpectedEof,
+                                "No more data from the inner layer",
+                            ));
+                        }
+                        // No more data available but not in a stream
+                        Ok(Some(0))
+                    }
+                    // Input consumed, nothing produced yet: another pass is needed
+                    Ok(0) if more_passes && !buf.is_empty() => Ok(None),
+                    Ok(count) => Ok(Some(count)),
+                    Err(err) => Err(err),
+                }
             }
             CompressionLayerFailSafeReaderState::Empty => Err(Error::WrongReaderState(
                 "[Compression Layer] Should never happens, unless an error already occurs before"
